@@ -205,8 +205,8 @@ Proof.
   intros Ek H. unfold chan_check. pose proof (inv_conn_check s H) as H1.
   destruct (conn_check s) as [s1 [|]]; cbn in *.
   - now apply inv_mark.
-  - destruct (lc_errs c) as [|n]; [destruct (cstate_eqb (lc_state c) CLOSED); exact H|].
-    destruct (cstate_eqb (lc_state c) OPEN) eqn:Eo; cbn; [|exact H].
+  - destruct (lc_errs c) as [|e n]; [destruct (cstate_eqb (lc_state c) CLOSED); exact H|].
+    destruct (cstate_eqb (lc_state c) OPEN || e) eqn:Eo; cbn; [|exact H].
     eapply inv_upd; eauto. cbn. intros Hr. destruct H as [T _].
     apply (T c (nth_error_In _ _ Ek) Hr).
 Qed.
